@@ -83,6 +83,9 @@ def mentions_param(t):
 class DefGen:
     def __init__(self, seed, tier, tygen):
         self.r = random.Random(seed * 7919 + 13)
+        # decisions added after the first rounds draw from a second stream, so that the definitions of earlier versions stay as they were
+        self.r2 = random.Random(seed * 104729 + 7)
+        self._margs = None
         self.tier = tier
         self.tg = tygen
         self.n = 0
@@ -128,6 +131,12 @@ class DefGen:
     # ------------------------------------------------------------------ field types
     def field_type(self, tparams, selfname, lifetimes, consts, value_mode, depth=2):
         t = self.field_type0(tparams, selfname, lifetimes, consts, value_mode, depth)
+        if self.r2.random() < 0.05:
+            # a real member whose type only shares its name with core's marker
+            self.stat("member_of_user_type_named_PhantomData")
+            inner = self.r2.choice([U8, U16, STRING, T("option", [U32])])
+            up = mk("def", [inner], {"path": "vcommon::hand::units::PhantomData", "enc": True, "alias_of": None})
+            return self.r2.choice([up, up, mk("vec", [up]), mk("tuple", [up, U8])])
         # a redundantly parenthesised type is the same type with a different source text
         if self.r.random() < 0.06 and t.kind not in ("phantom",):
             self.stat("parenthesised_type")
@@ -189,6 +198,10 @@ class DefGen:
         # parameter names in declaration order, usually not alphabetical
         tparams = r.sample(["T", "U", "V", "A", "K", "Z", "Key", "Val", "E"], ntp)
         lifetimes = ["'a"] if r.random() < 0.2 else []
+        if lifetimes and self.r2.random() < 0.6:
+            # several lifetimes, with names that are prefixes of each other or of 'static
+            lifetimes = self.r2.choice([["'a", "'arena"], ["'a", "'s"], ["'s"], ["'st", "'a", "'stat"], ["'static_", "'a"], ["'b", "'a"], ["'_a", "'a"]])
+            self.stat("lifetime_names_related")
         consts = ["N"] if (r.random() < 0.15) else []
         d = {"name": name, "mod": modpath, "kind": kind, "tparams": tparams, "lifetimes": lifetimes, "consts": consts, "value": value_mode,
              "docs": self.docs(0.5), "capture": r.choice([None, None, "default", "always", "never", "ALWAYS" if not value_mode else "never"]),
@@ -235,6 +248,9 @@ class DefGen:
             if consts and (r.random() < 0.5 or any(p in d["defaults"] for p in tparams)):
                 d["defaults"]["N"] = "3"
         d["insts"] = self.instantiations(d)
+        d["macro"] = self.r2.random() < 0.15
+        if d["macro"]:
+            self.stat("defined_through_macro_rules_ty_fragments")
         return d
 
     def fields(self, shape, tparams, selfname, lifetimes, consts, value_mode, in_variant=False):
@@ -376,7 +392,8 @@ class DefGen:
         for p in missing_t:
             extra.append(mk("phantom", [mk("param", extra=p)]))
         for l in missing_l:
-            extra.append(mk("phantom", [mk("lt_str", extra=l)]))
+            # with several related lifetime names every one of them shows up in the type name of a real member
+            extra.append(mk("lt_str", extra=l) if len(d["lifetimes"]) > 1 else mk("phantom", [mk("lt_str", extra=l)]))
         for c in missing_c:
             extra.append(mk("constarray", [U8], c))
         if not extra:
@@ -487,18 +504,35 @@ class DefGen:
         k = self.r.randint(0, len(attrs))
         s = "".join(attrs[:k]) + docs + "".join(attrs[k:])
         vis = "pub " if pub else ""
+        txt = src_text(f["ft"])
+        if self._margs is not None:
+            # the member's type reaches the derive as a `$t:ty` fragment (an invisible group), whole or as a generic argument
+            k = len(self._margs)
+            h = (len(txt) * 31 + k * 7) % 10
+            if txt.startswith("Vec<") and txt.endswith(">") and h < 3:
+                self._margs.append(txt[4:-1])
+                txt = "Vec<$t%d>" % k
+            elif h != 9:
+                self._margs.append(txt)
+                txt = "$t%d" % k
         if f["name"]:
-            s += "%s%s%s: %s,\n" % (indent, vis, f["name"], src_text(f["ft"]))
+            s += "%s%s%s: %s,\n" % (indent, vis, f["name"], txt)
         else:
-            s += "%s%s%s,\n" % (indent, vis, src_text(f["ft"]))
+            s += "%s%s%s,\n" % (indent, vis, txt)
         return s
 
     def def_has_bitvec(self, d):
         return any(f["ft"].has_bitvec() for f in self.all_fields(d))
 
     def def_src(self, d, indent, gate_bitvec=False):
-        body = self.def_src_inner(d, indent, gate_bitvec)
+        self._margs = [] if d.get("macro") else None
+        body = self.def_src_inner(d, indent + ("        " if d.get("macro") else ""), gate_bitvec)
+        margs, self._margs = self._margs, None
         consts = "".join("%s%s\n" % (indent, c) for c in sorted(d.get("consts_src", {}).values()))
+        if d.get("macro"):
+            mname = "mk_%s_%s" % ("_".join(d["mod"]).replace("r#", "raw_"), d["name"].replace("r#", "raw_"))
+            body = "%smacro_rules! %s {\n%s    (%s) => {\n%s%s    };\n%s}\n%s%s!(%s);\n" % (
+                indent, mname, indent, ", ".join("$t%d:ty" % i for i in range(len(margs))), body, indent, indent, indent, mname, ", ".join(margs))
         return consts + body
 
     def def_src_inner(self, d, indent, gate_bitvec=False):
@@ -688,8 +722,7 @@ class DefGen:
                 txt = "Compact<%s>" % txt
             name = f["rename"] if f["rename"] is not None else f["name"]
             tn = src_text(f["ft"])
-            for l in d["lifetimes"]:
-                tn = re.sub(re.escape(l) + r"\b", "'static", tn)
+            tn = re.sub(r"'[A-Za-z_][A-Za-z0-9_]*", lambda m: "'static" if m.group(0) in d["lifetimes"] else m.group(0), tn)
             tn = "".join(tn.split())
             return "FieldM { name: %s, ty: %s, check_ty: %s, type_name: %s, docs: &[%s] }" % (
                 ("Some(%s)" % rust_str(name)) if name is not None else "None", did(txt), "false" if f["encoded_as"] else "true", rust_str(tn),
@@ -756,6 +789,19 @@ class DefGen:
             d = self.definition(m, value_mode)
             defs.append(d)
             by_mod.setdefault(tuple(m), []).append(d)
+        # the largest enums the codec allows: 256 variants (indices 0..=255), next to 255 and to explicit indices counted down
+        for name, n, rev in [("Big256", 256, False), ("Big255", 255, False), ("Big256Rev", 256, True)]:
+            vs = []
+            for i in range(n):
+                shape = "tuple" if i in (0, 100, n - 1) else "unit"
+                fields = [{"ft": U16, "skip": False, "compact": False, "encoded_as": None, "rename": None, "docs": [], "name": None}] if shape == "tuple" else []
+                vs.append({"name": "V%d" % i, "shape": shape, "fields": fields, "skip": False, "index": (n - 1 - i) if rev else None, "discr": None, "docs": [],
+                           "eff_index": (n - 1 - i) if rev else i})
+            d = {"name": name, "mod": [], "kind": "enum", "tparams": [], "lifetimes": [], "consts": [], "value": True, "docs": [], "capture": None, "replace": [],
+                 "skip_tp": [], "defaults": {}, "bounds": {}, "where": "", "variants": vs, "repr_u8": False, "insts": [{}], "macro": False}
+            self.stat("enum_with_%d_variants" % n)
+            defs.append(d)
+            by_mod.setdefault((), []).append(d)
         src = ""
         # emit module tree
 
